@@ -117,19 +117,10 @@ def main(tier):
             t = None
         else:
             t = m.tb.fn_term(fil) if fil else ("missing",)
-        EQ = "<Token as cmp::PartialEq>::eq"
-        e = M(("seq", ("try", ("call", "P.get_next_token", ("param", "self"))), ("try", ("call", "P.check_paren", ("param", "self"), ("param", "?st"))), ("let", "?args", ("call", "Vec::new")),
-               ("loop", "?body"), ("Ok", ("var", "?args"))), t)
         okl = False
-        if e is not None:
-            args = ("var", e["?args"])
-            body = e["?body"]
-            okl = M(("seq",
-                     ("if", ("op", "and", "bool", ("call", "Vec::is_empty", args), ("call", EQ, ("param", "?en"), CUR)), ("seq", ("try", ("call", "P.get_next_token", ("param", "self"))), ("break",)), ("unit",)),
-                     ("let", "?a", ("try", ("call", "P.generate_ast", ("param", "self"), ("param", "?pr")))),
-                     ("call", "Vec::push", args, ("var", "?a")),
-                     ("if", ("call", EQ, ("ctor", "Token::Comma"), CUR), ("try", ("call", "P.get_next_token", ("param", "self"))),
-                      ("if", ("call", EQ, ("param", "?en"), CUR), ("seq", ("try", ("call", "P.get_next_token", ("param", "self"))), ("break",)), ("return", ("Err",))))), body) is not None
+        if fil is not None:
+            okl, _why = m.list_shape()      # (model.py: the loop with the first-iteration guard, or the empty list decided before the loop)
+            t = m.tb.parser_term(fil)
         if t is not None:
           run.ob(okl, "list-shape|%s" % ev, "C03-c variadic argument list: name, '(', [ e { ',' e } ] , ')'; anything else is Err", where(m, "::parser::Parser::find_item_list"), T.show(t)[:400])
         fa = m.tb.fn("::parser::Parser::function_arguments")
